@@ -40,6 +40,10 @@ not_yet = {}
 props = [json.loads(l) for l in open('/verif/properties.jsonl')]
 extra = json.load(open('/verif/manifest_extra.json')) if __import__('os').path.exists('/verif/manifest_extra.json') else {}
 claimed.update(extra.get("claimed", {}))
+import glob
+for f in sorted(glob.glob('/verif/harness/props/*.manifest.json')):
+    for e in json.load(open(f)):
+        claimed[e["id"]] = dict(cat=e["cat"], tech=e["tech"], text=e["text"], note=e["note"], ref=e["ref"])
 na_reasons = extra.get("not_applicable", {})
 hooks_commits = extra.get("hook_commits", [])
 m = {
